@@ -391,6 +391,11 @@ class TFLiteSerialiser:
                 if tens is not None:
                     tensor_set[tens] = None
 
+        # A subgraph output that no written operator touches (a constant listed as output, also when its only reader
+        # went into an Ethos-U operator) is still part of the interface of the model
+        for tens in sg.output_tensors:
+            tensor_set[tens] = None
+
         all_tensors = [tens for nm, idx, tens in sorted((tens.name, idx, tens) for idx, tens in enumerate(tensor_set))]
 
         scratch_tensors = [tens for tens in all_tensors if tens.purpose is TensorPurpose.Scratch]
